@@ -22,11 +22,14 @@
     finite set es of elementary edits, diff s (apply es s) = expected es up to order
     within a table.  Proved below piecewise: per keyed list (2a-2e), composed per table
     (2f, 3a) and per schema (2g), with the ChangeKind bits of ColumnChange per dialect
-    (3b, 4c, 4f).  What is missing for one closed C02_exact: the composition of 2g
-    with 3a over all tables at once, and the scripts whose dropped generated-name index
-    is matched with an unnamed one. *)
+    (3b, 4c, 4f), and -- round 5 -- composed over all tables of a schema for SQLite
+    (9: C02_exact_sqlite_partial, index part in the closed form of 5a, so the match of a
+    generated name with an unnamed desired index is included) and over all schemas of a
+    realm (8a-8g: RealmDiff, schema attributes).  What is still missing for one closed
+    C02_exact: pairs in which SQLite's Normalize rewrites something (autoindex names,
+    re-symbolled foreign keys), and table attributes of MySQL / PostgreSQL. *)
 From Coq Require Import List NArith Bool Arith Permutation.
-From Atlas Require Import Base.Bytes Diff.Schema Diff.DiffModel Diff.DiffSqlite Diff.DiffDialects Diff.DiffProofs Diff.DiffSqliteProofs Diff.DiffDialectsProofs Diff.DiffSqliteCopy Diff.DiffMysqlVariants Diff.DiffMysqlVariantsProofs Diff.DiffUnnamedProofs Diff.DiffSqliteNumFk Diff.DiffRealm Diff.DiffRealmProofs.
+From Atlas Require Import Base.Bytes Diff.Schema Diff.DiffModel Diff.DiffSqlite Diff.DiffDialects Diff.DiffProofs Diff.DiffSqliteProofs Diff.DiffDialectsProofs Diff.DiffSqliteCopy Diff.DiffMysqlVariants Diff.DiffMysqlVariantsProofs Diff.DiffUnnamedProofs Diff.DiffSqliteNumFk Diff.DiffRealm Diff.DiffRealmProofs Diff.DiffSqliteExact.
 Import ListNotations.
 
 (** 1a. Generic: for every driver whose callbacks report nothing on identical
@@ -752,6 +755,30 @@ Theorem C02_comment_diff_exact :
   end.
 Proof. exact comment_diff_exact. Qed.
 
+(** 9. SQLite, the whole SchemaDiff in one statement (the composition of 2g with 3a over all
+    tables at once, asked for since round 1): for a script of tables and, per kept table, the
+    scripts of its columns, foreign keys and checks ([table_script], [ts_ok]), SchemaDiff returns
+    exactly one DropTable per dropped table, one ModifyTable per kept table whose expected list
+    [sqlite_table_expected] is not empty, carrying exactly that list -- WITHOUT ROWID / STRICT
+    flags, checks, columns, primary key, indexes, foreign keys -- and one AddTable per added
+    table; every kind through the skip filter; nothing else.  The index part is the closed form of
+    5a, valid for all pairs of index lists, so the positive similarUnnamedIndex /
+    FindGeneratedIndex match (a generated name paired with an unnamed desired index: neither
+    dropped nor added) is included -- the side condition of 2b / 2f / 3a is gone.
+    Still partial: [ts_ok] assumes that Normalize has nothing to rewrite in the pair
+    ([fk_stable]: no foreign key is re-symbolled -- excludes the numeric symbols of 7b;
+    [idx_norm_stable]: no UNIQUE autoindex to rename -- those pairs are covered for the copy
+    case by C02_sqlite_copy_empty only), and columns are typed. *)
+Theorem C02_exact_sqlite_partial :
+  forall skip from to ps adds scripts,
+  s_name from = s_name to -> s_tables from = map fst ps -> script_ok t_name ps adds ->
+  Permutation (s_tables to) (kept ps ++ adds) ->
+  Forall2 entry_ok ps scripts ->
+  exists adds' scripts', Permutation adds adds' /\ Forall2 ts_perm scripts scripts' /\
+    SchemaDiff sqlite_driver skip from to =
+    Some (sqlite_schema_expected skip ps scripts' ++ add_or_skip_s skip (map (fun t => AddTable (t_name t)) adds')).
+Proof. exact sqlite_schema_diff_closed. Qed.
+
 (** * Non-vacuity: concrete inputs (vm_compute) *)
 Definition x_a : column := mkColumn [97]%N 2 [105;110;116]%N false None None None.
 Definition x_b : column := mkColumn [98]%N 3 [116;101;120;116]%N true (Some (DLit [39;120;39]%N)) None None.
@@ -946,6 +973,31 @@ Example C02_ex_pg_comment :
                               (mkSchemaX (mkSchema [97]%N []) None None None) = [SModifyAttr ATTR_COMMENT [120]%N []].
 Proof. repeat split; vm_compute; reflexivity. Qed.
 
+(* round 5: the table script of the pair (x_t, x_t') of C02_ex_exact meets [ts_ok]; its expected list is the diff *)
+Definition x_sc : table_script :=
+  mkTS [(x_a, Some x_a); (x_b, Some x_b')] [x_c] [(x_f1, Some x_f1')] [] [(x_k1, None)] [].
+Example C02_ex_exact_sqlite :
+  Forall2 entry_ok [(x_t, Some x_t')] [x_sc] /\
+  sqlite_schema_expected no_skip [(x_t, Some x_t')] [x_sc] =
+  [ModifyTable [116]%N [AddAttr ATTR_STRICT; DropCheck [107;49]%N [97;62;48]%N;
+                        ModifyColumn [98]%N (N.lor ChangeNull ChangeDefault); AddColumn [99]%N;
+                        ModifyIndex [105;49]%N ChangeUnique; ModifyForeignKey [102;49]%N ChangeDeleteAction]].
+Proof.
+  split; [|vm_compute; reflexivity].
+  constructor; [|constructor]. intros t' E. simpl in E. inversion E; subst t'. clear E.
+  destruct C02_ex_column_script as [CS CP].
+  split; [|split; [|split; [|split]]].
+  - intros fk1 fk2 [<-|[]] [<-|[]] _. reflexivity.
+  - intros i [<-|[]]. left. vm_compute. reflexivity.
+  - split; [reflexivity|]. split; [exact CS|]. split; [exact CP|].
+    intros c c' [E|[E|[]]]; inversion E; split; discriminate.
+  - split; [reflexivity|]. split.
+    + split; simpl; [repeat constructor; simpl; tauto|]. intros c c' [E|[]]. inversion E. reflexivity.
+    + simpl. apply Permutation_refl.
+  - split; [reflexivity|]. split; [simpl; constructor|]. split; [intros c o _ c2 []|].
+    split; [intros c c2 [E|[]]; inversion E|]. split; [intros c2 []|intros a []].
+Qed.
+
 Print Assumptions C02_self_empty.
 Print Assumptions C02_copy_empty.
 Print Assumptions C02_perm_empty.
@@ -1004,3 +1056,4 @@ Print Assumptions C02_realm_laws.
 Print Assumptions C02_realm_perm_empty_dialects.
 Print Assumptions C02_mysql_schema_attr_exact.
 Print Assumptions C02_comment_diff_exact.
+Print Assumptions C02_exact_sqlite_partial.
